@@ -25,11 +25,17 @@ def same(data_type, model_v, real_v):
     if data_type is int or data_type == 'uint':
         return type(real_v) is int and real_v == model_v
     if data_type is float:
-        return type(real_v) is float and (real_v == model_v or (real_v != real_v and model_v != model_v))
+        return type(real_v) is float and (repr(real_v) == repr(model_v))       # value AND sign (0.0 vs -0.0)
     if data_type == 'mapper':
         return True            # mapper slots are read through get_map / iterate_map
-    # objects: the store must hand back the very object that was stored
-    return real_v is model_v or real_v == model_v
+    # objects: the store must hand back the very object that was stored (or at least one of the same type, value and
+    # representation: 1 / 1.0 / True and 0.0 / -0.0 compare equal but are not the same value)
+    if real_v is model_v:
+        return True
+    try:
+        return type(real_v) is type(model_v) and real_v == model_v and repr(real_v) == repr(model_v)
+    except Exception:
+        return False
 
 
 class Mismatch(Exception):
